@@ -8,6 +8,9 @@ package mqttproxy
 // over the reference's live subscription set (DESIGN A.5), plus a structural "no residue" check.
 
 import (
+	"os"
+	"runtime"
+	"runtime/pprof"
 	"fmt"
 	"sort"
 	"strings"
@@ -164,6 +167,28 @@ func newC14Sys(ops []c14Op, topics []string) *c14Sys {
 	return s
 }
 
+// Close releases what the real objects of this instance keep running (session resend tickers, the store goroutine).
+func (s *c14Sys) Close() {
+	s.b.sessMgr.sessionMap.Range(func(k, v interface{}) bool {
+		func() {
+			defer func() { recover() }() // a session that the history already closed
+			v.(*Session).close()
+		}()
+		return true
+	})
+	s.b.sessMgr.close()
+	// every Session.store() leaves a goroutine sending to the (now unread) store channel: take what they send
+	for idle := 0; idle < 3; {
+		select {
+		case <-s.b.sessMgr.storeCh:
+			idle = 0
+		default:
+			idle++
+			runtime.Gosched()
+		}
+	}
+}
+
 func (s *c14Sys) NumOps() int         { return len(s.ops) }
 func (s *c14Sys) OpName(i int) string { return s.ops[i].String() }
 func (s *c14Sys) Enabled(i int) bool {
@@ -290,7 +315,6 @@ func (p c14Order) Choose(n int, label string) int    { return int(p) % n }
 func (p c14Order) ChooseDev(n int, label string) int { return int(p) % n }
 
 var c14Passes = []c14Order{0, 1}
-var c14Alt int
 
 func (s *c14Sys) check(c *mc.Ctx, o c14Op) {
 	s.nops++
@@ -299,11 +323,6 @@ func (s *c14Sys) check(c *mc.Ctx, o c14Op) {
 	}
 	defer vrt.SetOrderChooser(nil)
 	passes := c14Passes
-	if s.nops >= 4 {
-		// the deepest level of the thorough tier (4th operation): one of the two orders, alternating
-		c14Alt++
-		passes = c14Passes[c14Alt%2 : c14Alt%2+1]
-	}
 	for _, pass := range passes {
 		vrt.SetOrderChooser(pass)
 		s.checkRouting(c, o, int(pass))
@@ -459,6 +478,14 @@ func TestVerifC14(t *testing.T) {
 		i := i
 		jobs = append(jobs, mc.BFSJob(mc.BFSOptions{Job: fmt.Sprintf("first-op-%02d:%s", i, ops[i]), MaxDepth: depth, InitPath: []int{i}},
 			func() mc.Sys { return newC14Sys(ops, topics) }))
+	}
+	if os.Getenv("VERIF_DEBUG_MEM") != "" {
+		mc.OnExit = append(mc.OnExit, func() {
+			var m runtime.MemStats
+			runtime.ReadMemStats(&m)
+			fmt.Fprintf(os.Stderr, "DEBUG goroutines=%d heap=%dMB\n", runtime.NumGoroutine(), m.HeapAlloc>>20)
+			pprof.Lookup("goroutine").WriteTo(os.Stderr, 1)
+		})
 	}
 	mc.RunJobs("C14", jobs)
 }
